@@ -37,7 +37,19 @@ ASSUMPTIONS = [
     "tolerance: 1e-6 + 2e-7*#ops (+16*atol*#ops for passes that are approximate by contract)",
     "a generic input state (deterministic function of a drawn integer) plus |0..0> stand in for full channel equality",
 ]
-SENSITIVITY = []  # filled at the bottom from mutants/c06.json names
+def _mutant_names():
+    import json
+    import os
+
+    path = os.path.join(os.path.dirname(os.path.dirname(os.path.dirname(os.path.abspath(__file__)))), "mutants", "c06.json")
+    try:
+        with open(path) as fh:
+            return [m["name"] for m in json.load(fh)]
+    except (OSError, ValueError):
+        return []
+
+
+SENSITIVITY = _mutant_names()  # kept in sync with mutants/c06.json by construction
 
 BASE_TOL = 1e-6
 SPECIAL_COVERS = []
@@ -885,7 +897,24 @@ def _f25(sub, recipe):
     return "m" in kinds and "cc" in kinds
 
 
+def _f26(sub, recipe):
+    """defer_measurements tests 'terminal' by op equality: a mid-circuit measurement equal to a terminal one is not deferred."""
+    if recipe.get("row") != "defer_measurements" or not (recipe.get("c") or {}).get("repkeys"):
+        return False
+    seen = set()
+    for o in _ops_of(recipe):
+        if o.get("k") == "m":
+            sig = (int(o.get("key", 0)) % 3, tuple(o.get("w", [])))
+            if sig in seen:
+                return True
+            seen.add(sig)
+        if o.get("k") == "sub" and o.get("reps") == 2 and any(o2.get("k") == "m" for o2 in G6.walk_ops(o.get("body"))):
+            return True
+    return False
+
+
 KNOWN_FEATURES = {
+    "F26_defer_terminal_by_equality": _f26,
     "F25_merge_moves_measurement_past_control": _f25,
     "F23_qubit_mapping_subcircuit_simple_manager": _f23,
     "F22_phxz_symbolized_symbols_in_subcircuit": _f22,
@@ -960,9 +989,9 @@ def uncovered():
 
 
 SUBCHECKS = [
-    SubCheck("unitary", _case("unitary"), oracle_general, quick=11000, thorough=300000, shards_quick=10, shards_thorough=16,
+    SubCheck("unitary", _case("unitary"), oracle_general, quick=9000, thorough=300000, shards_quick=10, shards_thorough=16, time_quick=600.0, time_thorough=3000.0,
              essential={"noncommuting": 0.3}),
-    SubCheck("records", _case("records"), oracle_general, quick=9000, thorough=200000, shards_quick=10, shards_thorough=16,
+    SubCheck("records", _case("records"), oracle_general, quick=7500, thorough=200000, shards_quick=10, shards_thorough=16, time_quick=600.0, time_thorough=3000.0,
              essential={"has_meas": 0.5}),
     SubCheck("qubit_management", _qm_case(), oracle_qubit_management, quick=700, thorough=25000, shards_quick=2, shards_thorough=8),
     SubCheck("sweeps", _sw_case(), oracle_sweeps, quick=1200, thorough=40000, shards_quick=2, shards_thorough=8),
